@@ -48,6 +48,35 @@ async def main():
         await asyncio.sleep(1.2)
         if errors:
             return True, f'remove_request() left the timer armed: later error in the loop: {errors}', {'scenario': 'remove-then-expiry'}
+        # the user removes the request from a SearchRequestSentEvent listener, then the deadline passes
+        from aioslsk.events import SearchRequestSentEvent, SearchRequestRemovedEvent
+        removed = []
+
+        def on_sent(event):
+            sm.remove_request(event.query)
+
+        def on_removed(event):
+            removed.append(event.query)
+        client.events.register(SearchRequestSentEvent, on_sent)
+        client.events.register(SearchRequestRemovedEvent, on_removed)
+        req = await sm.search('second')
+        await asyncio.sleep(1.2)
+        client.events.unregister(SearchRequestSentEvent, on_sent)
+        if errors or removed:
+            return True, (f'a request removed by the user while SearchRequestSentEvent was delivered: its timer fired afterwards '
+                          f'(loop errors {errors}, removal events {len(removed)})'), {'scenario': 'remove-in-sent-listener'}
+        # a request with a timeout is removed at the timeout although a listener of SearchRequestSentEvent was slow
+        client.settings.searches.send.request_timeout = 1
+
+        async def slow(event):
+            await asyncio.sleep(1.6)
+        client.events.register(SearchRequestSentEvent, slow)
+        task = asyncio.ensure_future(sm.search('third'))
+        await asyncio.sleep(1.4)
+        if not removed or removed[-1].query != 'third':
+            return True, 'a request with a 1 s timeout is still registered after 1.4 s: the deadline counts from the end of event delivery', {'scenario': 'slow-sent-listener'}
+        await task
+        client.events.unregister(SearchRequestSentEvent, slow)
         # live requests have distinct tickets, whichever API created them
         client.settings.searches.send.request_timeout = 0
         from aioslsk.commands import GlobalSearchCommand, UserSearchCommand, RoomSearchCommand
